@@ -232,7 +232,13 @@ class Gen:
             opts.append("n_or")
         opts.append("odd_eq_display")
         opts.append("dunder_call")
+        if self.env.can_use("len"):
+            opts.append("boolop_value_without_truth")
         k = rng.choice(opts)
+        if k == "boolop_value_without_truth":
+            # the LAST operand of and / or is the result whatever it is: Python does not ask for its truth (here it has none)
+            return rng.choice(["len({xs} and G_VECTOR)", "len(({i} - {i}) or G_VECTOR)", "len(({xs} or [0]) and G_VECTOR) + {i}",
+                               "len((({i}) and G_VECTOR).items)" if False else "len({xs} and G_VECTOR)"]).format(xs=self.list_expr(d + 1), i=self.int_leaf())
         if k == "dunder_call":
             # the attribute looked up on the way is a method-wrapper / a bound builtin method (a routine: never to be shown)
             return rng.choice(["{xs}.__len__()", "{xs}.__len__() + {i}", "{s}.__len__()", "{d}.__len__()", "{xs}.count({i})", "{xs}.__contains__({i}) + {i2}"]).format(
